@@ -803,3 +803,161 @@ func asmCanonName(routine string, i int, declared string) string {
 	}
 	return declared
 }
+
+// UnrollConstLoops returns a copy of the routine in which every counted loop with a constant trip count
+//
+//	MOV $K, R ; header: body ; DEC R (or SUB $1, R) ; JNE header
+//
+// (R used for nothing else, no other branch into or out of the body, 1 <= K <= 64) is replaced by K copies of its body.
+// The analyses written for straight-line kernels then see the same instruction sequence the processor executes. When no
+// such loop exists the receiver itself is returned.
+func (r *Routine) UnrollConstLoops() *Routine {
+	if r.Arch != "amd64" {
+		return r
+	}
+	cur := r
+	for iter := 0; iter < 8; iter++ {
+		next := cur.unrollOne()
+		if next == nil {
+			return cur
+		}
+		cur = next
+	}
+	return cur
+}
+
+func (r *Routine) unrollOne() *Routine {
+	mentions := func(in *Instr, reg string) bool {
+		for _, o := range in.Args {
+			if o.Reg == reg || o.Index == reg {
+				return true
+			}
+			for _, x := range o.Regs {
+				if x == reg {
+					return true
+				}
+			}
+		}
+		return false
+	}
+	for j, br := range r.Instrs {
+		if br.Op != "JNE" || len(br.Args) == 0 || br.Args[len(br.Args)-1].Kind != OTarget || j < 2 {
+			continue
+		}
+		h, ok := r.pcIndex[int(br.Args[len(br.Args)-1].Imm)]
+		if !ok || h >= j {
+			continue
+		}
+		dec := r.Instrs[j-1]
+		reg := ""
+		switch {
+		case dec.Op == "DECQ" && len(dec.Args) == 1 && dec.Args[0].Kind == OReg:
+			reg = dec.Args[0].Reg
+		case dec.Op == "SUBQ" && len(dec.Args) == 2 && dec.Args[0].Kind == OImm && dec.Args[0].Imm == 1 && dec.Args[1].Kind == OReg:
+			reg = dec.Args[1].Reg
+		}
+		if reg == "" {
+			continue
+		}
+		// the counter is set by the nearest earlier instruction that mentions it: MOV $K, reg, before the header
+		init := -1
+		for i := h - 1; i >= 0; i-- {
+			if mentions(r.Instrs[i], reg) {
+				init = i
+				break
+			}
+			if k := branchKind(r.Arch, r.Instrs[i].Op); k != brNone {
+				break
+			}
+		}
+		if init < 0 {
+			continue
+		}
+		mi := r.Instrs[init]
+		if !(strings.HasPrefix(mi.Op, "MOV") && len(mi.Args) == 2 && mi.Args[0].Kind == OImm && mi.Args[1].Kind == OReg && mi.Args[1].Reg == reg) {
+			continue
+		}
+		K := mi.Args[0].Imm
+		if K < 1 || K > 64 {
+			continue
+		}
+		okBody := true
+		for i := h; i < j-1; i++ {
+			if mentions(r.Instrs[i], reg) || branchKind(r.Arch, r.Instrs[i].Op) != brNone {
+				okBody = false
+			}
+		}
+		// no other branch of the routine enters the loop behind its header
+		for i, in := range r.Instrs {
+			if i == j || len(in.Args) == 0 || in.Args[len(in.Args)-1].Kind != OTarget {
+				continue
+			}
+			if t, ok := r.pcIndex[int(in.Args[len(in.Args)-1].Imm)]; ok && t >= h && t <= j {
+				okBody = false
+			}
+		}
+		// the counter is dead after the loop (not read before it is written again): conservatively, not mentioned at all
+		for i := j + 1; i < len(r.Instrs); i++ {
+			if mentions(r.Instrs[i], reg) {
+				okBody = false
+			}
+		}
+		if !okBody {
+			continue
+		}
+		var seq []*Instr
+		oldToNew := map[int]int{}
+		emit := func(in *Instr, first bool) {
+			c := *in
+			c.Args = append([]Operand(nil), in.Args...)
+			c.Succ, c.Pred = nil, nil
+			if first {
+				oldToNew[in.Idx] = len(seq)
+			}
+			seq = append(seq, &c)
+		}
+		for i := 0; i < len(r.Instrs); i++ {
+			switch {
+			case i == init || i == j-1 || i == j:
+			case i >= h && i < j-1:
+				if i == h {
+					for k := int64(0); k < K; k++ {
+						for b := h; b < j-1; b++ {
+							emit(r.Instrs[b], k == 0)
+						}
+					}
+				}
+			default:
+				emit(r.Instrs[i], true)
+			}
+		}
+		// what followed a removed instruction is the target of a branch to it
+		resolve := func(old int) int {
+			for o := old; o < len(r.Instrs); o++ {
+				if n, ok := oldToNew[o]; ok {
+					return n
+				}
+			}
+			return len(seq) - 1
+		}
+		nr := &Routine{Arch: r.Arch, File: r.File, Name: r.Name, ArgSize: r.ArgSize, pcIndex: map[int]int{}, Slots: r.Slots, HasDecl: r.HasDecl, Called: r.Called}
+		for i, in := range seq {
+			in.Idx = i
+			if len(in.Args) > 0 && in.Args[len(in.Args)-1].Kind == OTarget {
+				if t, ok := r.pcIndex[int(in.Args[len(in.Args)-1].Imm)]; ok {
+					in.Args[len(in.Args)-1].Imm = int64(1000000 + resolve(t))
+				}
+			}
+		}
+		for i, in := range seq {
+			in.PC = 1000000 + i
+			_ = i
+		}
+		nr.Instrs = seq
+		if err := nr.buildCFG(); err != nil {
+			return nil
+		}
+		return nr
+	}
+	return nil
+}
